@@ -439,7 +439,7 @@ package httpserver
 //@   modifies ghost:verbatimLines, ghost:formattedLines, ghost:held
 //@   ensures [formatted_once] formattedLines == old(formattedLines) + 1 && verbatimLines == old(verbatimLines)
 
-//@ unit new_replacer frames=on props=C20 filter=`httpserver\.NewReplacer$`
+//@ unit new_replacer frames=on props=C20,C09 filter=`httpserver\.NewReplacer$`
 //@ // The replacer a directive asks for substitutes ITS OWN marker for empty values (the log directive's "-"), reads the
 //@ // request and the recorder it was given, and shares the request-body capture and custom placeholders of the replacer
 //@ // already installed in the request context, if there is one.
